@@ -125,6 +125,8 @@ type Interp struct {
 	covers    map[string]bool
 	observes  []Observe
 	side      map[*Cell]interface{} // sync object state keyed by cell
+	uniqInit  []uniqEntry
+	uniqPath  []uniqEntry
 	now       *Term                 // virtual clock (ns, BV64)
 	timers    []*Timer
 	steps     int64
